@@ -83,3 +83,67 @@ __CPROVER_assigns(g_pcalls2, g_pret2)
 __CPROVER_ensures(g_pcalls2 == 1 && (int)__CPROVER_return_value == g_pret2)       /*@ob C06.process-event-returns-the-result-of-the-step */
 ;
 #endif
+/* ---- exit_pt<ExitPseudostate>::forward_event / call_enqueue_event (C09): the second half of a compound transition through an exit point
+   is handed to the ROOT machine as an enqueued event (so it runs after the current step), once, unchanged; without a handler the
+   exit point is a terminate-like sink ---- */
+#if UNIT_EXIT_FORWARD
+typedef struct { _Bool m_forward_fn; } exitpt_t;         /* function pointer set? (init<RootSm>() in init_state_visitor) */
+extern fsm_t* const g_root; extern int g_fcalls2;
+void call_forward_fn(exitpt_t* self, fsm_t* root_sm, event_t event)
+__CPROVER_requires(self->m_forward_fn && g_fcalls2 == 0)                          /*@ob C09.exit-point-forwards-exactly-once-if-connected */
+__CPROVER_requires(root_sm == g_root && EV_EQ(event, g_evt))                      /*@ob C09,C18.exit-point-event-goes-to-the-root-machine-unchanged */
+__CPROVER_assigns(g_fcalls2)
+__CPROVER_ensures(g_fcalls2 == 1)
+;
+void exit_forward_event(exitpt_t* self, fsm_t* root_sm, event_t forward_event)
+__CPROVER_requires(__CPROVER_is_fresh(self, sizeof(*self)) && root_sm == g_root && EV_EQ(forward_event, g_evt) && g_fcalls2 == 0)
+__CPROVER_assigns(g_fcalls2)
+__CPROVER_ensures(g_fcalls2 == (self->m_forward_fn ? 1 : 0))                                              /*@ob C09.exit-point-forwards-exactly-once-if-connected */
+;
+#endif
+#if UNIT_EXIT_ENQUEUE
+extern fsm_t* const g_root;
+void root_enqueue_event(fsm_t* root, event_t event)
+__CPROVER_requires(root == g_root && EV_EQ(event, g_evt) && g_stored == 0)        /*@ob C09,C04.exit-point-event-is-enqueued-on-the-root-not-processed-inside-the-step */
+__CPROVER_assigns(g_stored)
+__CPROVER_ensures(g_stored == 1)
+;
+void call_enqueue_event(fsm_t* root_sm, event_t event)
+__CPROVER_requires(root_sm == g_root && EV_EQ(event, g_evt) && g_stored == 0)
+__CPROVER_assigns(g_stored)
+__CPROVER_ensures(g_stored == 1)                                                                           /*@ob C09.exit-point-event-stored-exactly-once */
+;
+#endif
+#if UNIT_COMPLETION_OCC
+typedef struct { uint8_t m_region_id; _Bool m_marked_for_deletion; } cocc_t;
+typedef struct { _Bool has; process_result v; } optres_t;
+static optres_t some_(process_result r) { optres_t o; o.has = 1; o.v = r; return o; }
+#define MARK_FOR_DELETION(self) ((self)->m_marked_for_deletion = 1)      /* event_occurrence::mark_for_deletion (must_contain pattern) */
+extern int g_ccalls3, g_cret3;
+process_result process_completion_transition(fsm_t* sm, uint8_t region_id)
+__CPROVER_requires(g_ccalls3 == 0 && region_id == g_region_of_occ)               /*@ob C10.completion-transition-of-the-region-that-was-entered-fires-once */
+__CPROVER_assigns(g_ccalls3, g_cret3)
+__CPROVER_ensures(g_ccalls3 == 1 && 0 <= g_cret3 && g_cret3 <= 7 && (int)__CPROVER_return_value == g_cret3)
+;
+extern const uint8_t g_region_of_occ;
+optres_t completion_try_process_impl(cocc_t* self, fsm_t* sm)
+__CPROVER_requires(__CPROVER_is_fresh(self, sizeof(*self)) && self->m_region_id == g_region_of_occ && g_ccalls3 == 0)
+__CPROVER_assigns(self->m_marked_for_deletion, g_ccalls3, g_cret3)
+__CPROVER_ensures(__CPROVER_return_value.has && (int)__CPROVER_return_value.v == g_cret3 && g_ccalls3 == 1)   /*@ob C10.completion-occurrence-is-always-dispatched-never-skipped-or-deferred */
+__CPROVER_ensures(self->m_marked_for_deletion)                                                             /*@ob C10.completion-occurrence-fires-at-most-once-per-entry */
+;
+#endif
+#if UNIT_DEFER_API
+static event_t normalize_event(event_t e) { return e; }
+void policy_defer_event(fsm_t* self, event_t e, _Bool next_rtc_seq)
+__CPROVER_requires(EV_EQ(e, g_evt) && g_stored == 0)                              /*@ob C05,C18.deferred-occurrence-keeps-type-and-payload */
+__CPROVER_requires((next_rtc_seq != 0) == (self->m_event_processing != 0))        /*@ob C05.event-deferred-during-a-step-is-not-re-offered-within-that-step */
+__CPROVER_assigns(g_stored)
+__CPROVER_ensures(g_stored == 1)
+;
+void api_defer_event(fsm_t* self, event_t event)
+__CPROVER_requires(__CPROVER_is_fresh(self, sizeof(*self)) && EV_EQ(event, g_evt) && g_stored == 0)
+__CPROVER_assigns(g_stored)
+__CPROVER_ensures(g_stored == 1)                                                                           /*@ob C05.defer-event-stores-exactly-one-occurrence */
+;
+#endif
